@@ -1,19 +1,23 @@
 (* The two models of protobuf_c_message_unpack agree (continued from Proofs/HeapSim.v): the scanning pass and its
    slabs, the arrays allocated after the scan, parse_required_member, the members, and the fuel induction.
 
-   THE DISAGREEMENT.  h_scan (as the C code) gives up when the 23 ScannedMember slabs (16, 32, ..., 16 * 2^22 entries)
+   THE SLAB LIMIT.  h_scan (as the C code) gives up when the 23 ScannedMember slabs (16, 32, ..., 16 * 2^22 entries)
    are full: the member number 16 * (2^23 - 1) + 1 = 134217713 of one message makes protobuf_c_message_unpack return
-   NULL ("too many fields"), whereas the value-level scan_loop goes on.  Lemma [h_scan_slab_limit] shows the diverging
-   step.  Every member occupies at least two bytes of input (key and at least one byte of payload: scan_one_full), so
-   an input of at most 2 * 134217712 + 1 = 268435425 bytes cannot reach the limit at any nesting depth; the smallest
-   diverging input is 134217713 two-byte members (e.g. 8 0 repeated: field 1, varint 0), 268435426 bytes, which the
-   value model accepts and the allocation model (and the C code) rejects.  The theorems below therefore assume
-   Mem.zlen data <= max_sim_len = 268435425 instead of < 2^31. *)
+   NULL ("too many fields"); Lemma [h_scan_slab_limit] shows that step.  The value-level scan_loop has no such test and
+   goes on, but unpack (Impl/Unpack.v) now rejects right after the scan when more than max_members = 134217712 members
+   were recorded -- observationally the same, since every failure of the scan is NULL.  (An earlier version of
+   Impl/Unpack.v lacked the test; the simulation proof below found the difference, the smallest diverging input being
+   134217713 two-byte members, 268435426 bytes, e.g. 8 0 repeated; it was demonstrated on the library and is listed as a
+   finding under C04.)  With the limit in both models the simulation holds for every input of less than 2^31 bytes:
+   the slab cursor (w, j) determines the number of members stored ([slab_inv]), h_scan reaches the end of slab 22 exactly
+   when max_members members are stored ([slab_inv_full]), and from there on the value-level scan can only record more
+   members ([scan_loop_members_mono]), so it either fails or trips the test ([h_scan_sim]).  Example
+   [slab_limit_diverges] shows both models at that state. *)
 From Coq Require Import ZArith List Bool Lia ZifyBool.
 From PBC Require Import Base.CInt Base.Bits Gen.LeafC Impl.Desc Impl.Mem Impl.Enc Impl.WF Impl.Unpack Impl.Canon
      Impl.Typed Impl.Heap Impl.HeapInv Proofs.MsgInd Proofs.Shape Proofs.ScanRec Proofs.ScanRecs Proofs.MsgRT4
      Proofs.ScanInv Proofs.Required Proofs.ScanCount Proofs.PackedCount Proofs.TagRange Proofs.MergeSafe Proofs.Terminates
-     Proofs.ParseSafe Proofs.UnpackSafe Proofs.Reorder Proofs.ParseGood Proofs.Examples Proofs.HeapSim.
+     Proofs.ParseSafe Proofs.UnpackSafe Proofs.Reorder Proofs.ParseGood Proofs.Examples Proofs.HeapSim Proofs.MemberCount.
 From PBC Require Proofs.LeafSafe.
 Import ListNotations.
 Local Open Scope Z_scope.
@@ -66,20 +70,31 @@ Qed.
 
 End Pre.
 
-(* capacity of the 23 slabs *)
-Definition slab_capacity : Z := 134217712.    (* 16 * (2^23 - 1) *)
-Definition max_sim_len : Z := 268435425.      (* 2 * slab_capacity + 1 *)
+(* capacity of the 23 slabs: max_members = 16 * (2^23 - 1) (Impl/Unpack.v) *)
 
-(* the slab cursor (w, j) after cnt members *)
-Definition slab_inv (w : nat) (j : Z) (cnt : nat) : Prop := Z.of_nat cnt = 16 * (2 ^ Z.of_nat w - 1) + j.
+(* the slab cursor (w, j) after cnt members: slabs 0 .. w-1 are full, j entries of slab w are used *)
+Definition slab_inv (w : nat) (j : Z) (cnt : nat) : Prop :=
+  Z.of_nat cnt = 16 * (2 ^ Z.of_nat w - 1) + j /\ (w <= 22)%nat /\ 0 <= j <= 16 * 2 ^ Z.of_nat w.
 
-Lemma data_total_ge_len : forall md ms, Forall (member_ok md) ms -> Z.of_nat (length ms) <= data_total ms.
+Lemma pow2_le_22 : forall w, (w <= 22)%nat -> 1 <= 2 ^ Z.of_nat w <= 4194304.
 Proof.
-  intros md ms H. induction H as [|sm t Hm H IH]; cbn [data_total length]; [lia|].
-  destruct Hm as (_ & Hl & _ & Hl1 & _). lia.
+  intros w Hw. split.
+  - pose proof (Z.pow_pos_nonneg 2 (Z.of_nat w) ltac:(lia) ltac:(lia)). lia.
+  - change 4194304 with (2 ^ 22). apply Z.pow_le_mono_r; lia.
 Qed.
 
-(* the diverging step: all slabs full, another member present *)
+(* while the cursor is valid, the members stored so far fit in the table *)
+Lemma slab_inv_capacity : forall w j cnt, slab_inv w j cnt -> Z.of_nat cnt <= max_members.
+Proof. intros w j cnt (Hc & Hw & Hj). pose proof (pow2_le_22 w Hw). unfold max_members. lia. Qed.
+
+(* the last slab is full exactly when max_members members are stored *)
+Lemma slab_inv_full : forall j cnt, slab_inv 22 j cnt -> (j = Z.shiftl 16 22 <-> Z.of_nat cnt = max_members).
+Proof.
+  intros j cnt (Hc & _ & Hj). change (Z.shiftl 16 22) with 67108864.
+  change (2 ^ Z.of_nat 22) with 4194304 in *. unfold max_members. lia.
+Qed.
+
+(* the step at which the C code says "too many fields": all slabs full, another member present *)
 Lemma h_scan_slab_limit : forall plan md k st slabs s, st_at st <> [] -> scan_pre (st_at st) = true ->
   fst (fst (fst (h_scan plan (S k) md st 22 (Z.shiftl 16 22) slabs s))) = false.
 Proof.
@@ -88,48 +103,57 @@ Proof.
 Qed.
 
 Section Scan.
-Variable E : env.
 Variable md : mdesc.
-Hypothesis D : desc_ok (length E) md = true.
-Variable N : Z.
-Hypothesis HN : N <= max_sim_len.
 
+(* The scanning passes of the two models, for ARBITRARY input: the allocation-level pass succeeds, with the same
+   final state, exactly when the value-level pass succeeds AND has recorded at most max_members members -- which is
+   the test unpack makes right after scan_loop.  (h_scan stops at member max_members + 1; scan_loop goes on, and can
+   only record more.) *)
 Lemma h_scan_sim : forall fuel st w j slabs s,
-  scan_inv md N st -> slab_inv w j (length (st_members st)) ->
+  slab_inv w j (length (st_members st)) ->
   match scan_loop fuel md st with
-  | Ok st' => exists slabs' s', h_scan nr fuel md st w j slabs s = (true, st', slabs', s')
+  | Ok st' => if max_members <? Mem.zlen (st_members st')
+              then fst (fst (fst (h_scan nr fuel md st w j slabs s))) = false
+              else exists slabs' s', h_scan nr fuel md st w j slabs s = (true, st', slabs', s')
   | Err _ => fst (fst (fst (h_scan nr fuel md st w j slabs s))) = false
   end.
 Proof.
-  induction fuel as [|k IH]; intros st w j slabs s I HS; cbn [scan_loop h_scan].
-  - destruct (st_at st); [eexists; eexists; reflexivity | reflexivity].
-  - destruct (st_at st) as [|b t] eqn:Ea; [eexists; eexists; reflexivity|].
+  induction fuel as [|k IH]; intros st w j slabs s HS; cbn [scan_loop h_scan].
+  - destruct (st_at st); [|reflexivity].
+    pose proof (slab_inv_capacity _ _ _ HS) as Hcap.
+    replace (max_members <? Mem.zlen (st_members st)) with false by (unfold Mem.zlen; lia).
+    eexists; eexists; reflexivity.
+  - destruct (st_at st) as [|b t] eqn:Ea.
+    { pose proof (slab_inv_capacity _ _ _ HS) as Hcap.
+      replace (max_members <? Mem.zlen (st_members st)) with false by (unfold Mem.zlen; lia).
+      eexists; eexists; reflexivity. }
     assert (Hne : st_at st <> []) by congruence.
     destruct (scan_one md st) as [st1|e] eqn:E1; cbn [bind].
     + rewrite <- Ea. rewrite (scan_one_pre md st st1 E1). cbn [negb].
-      pose proof I as (HB & HL & HM & HD & HSl).
-      destruct (scan_one_full E md D parse_tag_range_bytes st st1 E1 HB Hne HL) as (sm & used & Hm & Hok & Hu & Hul & _).
-      pose proof (scan_one_inv' E md D parse_tag_range_bytes count_packed_elements_le_len N st st1 ltac:(unfold max_sim_len in HN; lia) E1 Hne I) as I1.
-      pose proof (data_total_ge_len md _ HM) as Hdl.
-      assert (Hl1 : 1 <= sm_len sm) by (destruct Hok as (_ & _ & _ & H & _); exact H).
-      assert (Hcnt : Z.of_nat (length (st_members st)) < slab_capacity) by (unfold max_sim_len, slab_capacity in *; lia).
-      assert (Hstep : exists w' j' slabs' s',
-                (if j =? Z.shiftl 16 (Z.of_nat w)
-                 then if Nat.eqb w 22 then ret None
-                      else doA o <- alloc nr (Z.shiftl 32 (Z.of_nat (S w) + 4));
-                           match o with None => ret None | Some id => ret (Some (S w, 0, slabs ++ [id])) end
-                 else ret (Some (w, j, slabs))) s = (Some (w', j', slabs'), s') /\
-                slab_inv w' (j' + 1) (S (length (st_members st)))).
-      { unfold slab_inv in *. rewrite Z.shiftl_mul_pow2 by lia.
-        destruct (Z.eqb_spec j (16 * 2 ^ Z.of_nat w)) as [Hj|Hj].
-        - destruct (Nat.eqb_spec w 22) as [Hw|Hw].
-          + exfalso. subst w. change (2 ^ Z.of_nat 22) with 4194304 in *. unfold slab_capacity in Hcnt. lia.
-          + eexists; eexists; eexists; eexists. split; [reflexivity|].
-            rewrite !Nat2Z.inj_succ, Z.pow_succ_r by lia. lia.
-        - eexists; eexists; eexists; eexists. split; [reflexivity|]. lia. }
-      destruct Hstep as (w' & j' & slabs' & s' & Hrun & HS').
-      rewrite (bnd_run _ _ _ _ _ _ _ Hrun). cbv beta iota.
-      apply IH; [exact I1|]. rewrite Hm. exact HS'.
+      destruct (scan_one_consumes md st st1 E1 Hne) as (sm & Hm & _).
+      destruct (Z.eqb_spec j (Z.shiftl 16 (Z.of_nat w))) as [Hjf|Hjn].
+      * destruct (Nat.eqb_spec w 22) as [Hw22|Hw22].
+        -- (* "too many fields": the value-level scan goes on and, if it succeeds, has more than max_members members *)
+           subst w. pose proof (proj1 (slab_inv_full _ _ HS) Hjf) as Hfull.
+           destruct (scan_loop k md st1) as [st'|e'] eqn:Es; [|reflexivity].
+           pose proof (scan_loop_members_mono _ _ _ _ Es) as Hmono. rewrite Hm in Hmono. cbn [length] in Hmono.
+           replace (max_members <? Mem.zlen (st_members st')) with true by (unfold Mem.zlen; lia).
+           reflexivity.
+        -- (* a new slab *)
+           assert (Hrun : exists id s', (doA o <- alloc nr (Z.shiftl 32 (Z.of_nat (S w) + 4));
+                                         match o with None => ret None | Some id => ret (Some (S w, 0, slabs ++ [id])) end) s
+                                        = (Some (S w, 0, slabs ++ [id]), s')) by (eexists; eexists; reflexivity).
+           destruct Hrun as (id & s' & Hrun). rewrite (bnd_run _ _ _ _ _ _ _ Hrun). cbv beta iota.
+           apply IH. rewrite Hm. cbn [length]. destruct HS as (Hc & Hw & Hj).
+           rewrite Z.shiftl_mul_pow2 in Hjf by lia. unfold slab_inv.
+           rewrite !Nat2Z.inj_succ, Z.pow_succ_r by lia.
+           pose proof (pow2_le_22 w Hw). split; [lia|]. split; lia.
+      * (* room in the current slab *)
+        assert (Hrun : ret (Some (w, j, slabs)) s = (Some (w, j, slabs), s)) by reflexivity.
+        rewrite (bnd_run _ _ _ _ _ _ _ Hrun). cbv beta iota.
+        apply IH. rewrite Hm. cbn [length]. destruct HS as (Hc & Hw & Hj).
+        rewrite Z.shiftl_mul_pow2 in Hjn by lia. unfold slab_inv.
+        split; [lia|]. split; lia.
     + rewrite <- Ea. destruct (negb (scan_pre (st_at st))); [reflexivity|].
       unfold bnd.
       destruct (j =? Z.shiftl 16 (Z.of_nat w)); [destruct (Nat.eqb w 22); [reflexivity|]|]; reflexivity.
@@ -680,15 +704,14 @@ Lemma h_unpack_S : forall k d data md, nth_error E d = Some md ->
 Proof. intros k d data md H. cbn [h_unpack]. rewrite H. reflexivity. Qed.
 
 Theorem h_unpack_sim : forall fuel d data s,
-  LeafSafe.bytes data -> Mem.zlen data <= max_sim_len -> (d < length E)%nat -> (length data < fuel)%nat ->
+  LeafSafe.bytes data -> Mem.zlen data < 2147483648 -> (d < length E)%nat -> (length data < fuel)%nat ->
   match unpack E fuel d data, fst (h_unpack E nr szmsg fuel d data s) with
   | Ok m, Some hm => sim_msg m hm
   | Err _, None => True
   | _, _ => False
   end.
 Proof.
-  induction fuel as [|k IH]; intros d data s HB HN Hd Hf; [lia|].
-  assert (HN31 : Mem.zlen data < 2147483648) by (unfold max_sim_len in HN; lia).
+  induction fuel as [|k IH]; intros d data s HB HN31 Hd Hf; [lia|].
   destruct (nth_error E d) as [md|] eqn:Hmd; [|apply nth_error_None in Hmd; lia].
   pose proof (env_desc_ok E EO d md Hmd) as D.
   rewrite (unpack_unfold E k d md data Hmd), (h_unpack_S k d data md Hmd).
@@ -698,10 +721,15 @@ Proof.
   end.
   destruct Hbm as (bmid & s1 & Hbm). rewrite (bnd_run _ _ _ _ _ _ _ Hbm). cbv beta iota.
   pose proof (init_scan_inv E d md data HB) as I0.
-  pose proof (h_scan_sim E md D (Mem.zlen data) HN (S (length data)) (st_init d md data) 0%nat 0 [] s1 I0 ltac:(reflexivity)) as Hscan.
+  pose proof (h_scan_sim md (S (length data)) (st_init d md data) 0%nat 0 [] s1
+                ltac:(unfold slab_inv; cbn [st_init st_members length]; change (2 ^ Z.of_nat 0) with 1; lia)) as Hscan.
   destruct (scan_loop (S (length data)) md (st_init d md data)) as [st|e] eqn:Es; cbn [bind].
   2:{ destruct (h_scan nr (S (length data)) md (st_init d md data) 0 0 [] s1) as [[[ok st'] slabs] s2] eqn:Eh. cbn [fst] in Hscan. subst ok.
       rewrite (bnd_run _ _ _ _ _ _ _ Eh). cbv beta iota. cbn [negb]. rewrite none_after2. exact I. }
+  (* "too many fields": both models reject *)
+  destruct (max_members <? Mem.zlen (st_members st)) eqn:Hmax.
+  { destruct (h_scan nr (S (length data)) md (st_init d md data) 0 0 [] s1) as [[[ok st'] slabs] s2] eqn:Eh. cbn [fst] in Hscan. subst ok.
+    rewrite (bnd_run _ _ _ _ _ _ _ Eh). cbv beta iota. cbn [negb]. rewrite none_after2. exact I. }
   destruct Hscan as (slabs & s2 & Hrun). rewrite (bnd_run _ _ _ _ _ _ _ Hrun). cbv beta iota. cbn [negb].
   destruct (scan_loop_inv' E md D parse_tag_range_bytes count_packed_elements_le_len (Mem.zlen data) _ _ st ltac:(lia) Es I0)
     as ((HB' & HL & HMok & HDt & HSl) & Hat).
@@ -763,10 +791,10 @@ End Top.
 
 (* When no allocation is refused, the allocation-level model accepts exactly the inputs the value-level model accepts,
    and the heap message it returns has the shape of the value message.  The state s is arbitrary.
-   (Hypothesis changed with respect to the other theorems about unpack: Mem.zlen data <= max_sim_len = 268435425
-   instead of < 2^31; see the head of this file.) *)
+   (The bound on the input is the one of the other theorems about unpack, < 2^31 bytes: the "too many fields" limit of
+   the 23 slabs is in both models, see the head of this file.) *)
 Theorem h_unpack_simulates : forall (E : env) (szmsg : nat -> Z) fuel d data s,
-  env_ok E = true -> LeafSafe.bytes data -> Mem.zlen data <= max_sim_len -> (d < length E)%nat -> (length data < fuel)%nat ->
+  env_ok E = true -> LeafSafe.bytes data -> Mem.zlen data < 2147483648 -> (d < length E)%nat -> (length data < fuel)%nat ->
   match unpack E fuel d data, fst (h_unpack E (fun _ => false) szmsg fuel d data s) with
   | Ok m, Some hm => sim_msg m hm
   | Err _, None => True
@@ -776,7 +804,7 @@ Proof. intros E szmsg fuel d data s EO HB HN Hd Hf. exact (h_unpack_sim E EO szm
 
 (* the entry point *)
 Corollary h_unpack_top_simulates : forall (E : env) (szmsg : nat -> Z) d data s,
-  env_ok E = true -> LeafSafe.bytes data -> Mem.zlen data <= max_sim_len -> (d < length E)%nat ->
+  env_ok E = true -> LeafSafe.bytes data -> Mem.zlen data < 2147483648 -> (d < length E)%nat ->
   match unpack_top E d data, fst (h_unpack E (fun _ => false) szmsg (S (length data)) d data s) with
   | Ok m, Some hm => sim_msg m hm
   | Err _, None => True
@@ -786,31 +814,52 @@ Proof. intros E szmsg d data s EO HB HN Hd. unfold unpack_top. apply h_unpack_si
 
 (* same decision: NULL from the one iff failure of the other; by C05 (unpack_never_ub) the failure is EFail *)
 Corollary h_unpack_accepts_iff : forall (E : env) (szmsg : nat -> Z) d data s,
-  env_ok E = true -> LeafSafe.bytes data -> Mem.zlen data <= max_sim_len -> (d < length E)%nat ->
+  env_ok E = true -> LeafSafe.bytes data -> Mem.zlen data < 2147483648 -> (d < length E)%nat ->
   (fst (h_unpack E (fun _ => false) szmsg (S (length data)) d data s) = None <-> unpack_top E d data = Err EFail) /\
   (forall hm, fst (h_unpack E (fun _ => false) szmsg (S (length data)) d data s) = Some hm ->
      exists m, unpack_top E d data = Ok m /\ sim_msg m hm /\ shape_msg E m = true /\ m_desc m = d).
 Proof.
   intros E szmsg d data s EO HB HN Hd.
   pose proof (h_unpack_top_simulates E szmsg d data s EO HB HN Hd) as H.
-  pose proof (unpack_top_safe E EO d data HB ltac:(unfold max_sim_len in HN; lia) Hd) as HS.
+  pose proof (unpack_top_safe E EO d data HB HN Hd) as HS.
   destruct (unpack_top E d data) as [m|e]; destruct (fst (h_unpack E (fun _ => false) szmsg (S (length data)) d data s)) as [hm|];
     cbn [okres] in HS; try contradiction.
   - split; [split; intros H0; discriminate H0|]. intros hm' Hh. inversion Hh; subst hm'. exists m. destruct HS. auto.
   - subst e. split; [split; reflexivity|]. intros hm' Hh. discriminate Hh.
 Qed.
 
-(* the diverging state, on the example environment: one more two-byte member (field 1, varint 1) when the 23 slabs are
-   full.  The value-level scan accepts it; the allocation-level scan (and the C code: "too many fields") does not. *)
+(* the state at the limit, on a one-field descriptor: max_members members stored (whatever they are), the 23 slabs full,
+   one more two-byte member (field 1, varint 1) in the input.  The value-level scan_loop records it and ends normally --
+   with max_members + 1 members, so that the test in unpack rejects; the allocation-level scan (and the C code: "too many
+   fields") stops at the member.  Both models reject. *)
 Example slab_limit_diverges :
   let md := {| md_fields := [ {| f_id := 1; f_label := LRequired; f_type := TInt32; f_quant := QNone; f_packed := false;
                                  f_oneof := false; f_sub := 0%nat; f_default := None |} ];
                md_ranges := [ {| start_value := 1; orig_index := 0 |}; {| start_value := 0; orig_index := 1 |} ];
                md_n_ranges := 1; md_n_oneofs := 0%nat; md_generic_init := true |} in
-  let st := st_init 0 md [8; 1] in
-  (exists st', scan_loop 3 md st = Ok st' /\ st_at st' = []) /\
+  forall ms : list smember, Mem.zlen ms = max_members ->
+  let st := {| st_at := [8; 1]; st_last := Some 0%nat; st_last_idx := 0%nat; st_bitmap := [true];
+               st_members := ms; st_slots := m_slots (init_msg 0 md); st_nunk := 0 |} in
+  (exists st', scan_loop 3 md st = Ok st' /\ st_at st' = [] /\
+               (max_members <? Mem.zlen (st_members st')) = true) /\
+  slab_inv 22 (Z.shiftl 16 22) (length (st_members st)) /\
   fst (fst (fst (h_scan (fun _ => false) 3 md st 22 (Z.shiftl 16 22) [] (mkH 0 [])))) = false.
-Proof. cbv zeta. split; [eexists; split; vm_compute; reflexivity | vm_compute; reflexivity]. Qed.
+Proof.
+  cbv zeta. intros ms Hms. split; [|split].
+  - eexists. split; [vm_compute; reflexivity|]. split; [reflexivity|].
+    cbn [st_members]. unfold Mem.zlen, max_members in *. cbn [length]. lia.
+  - cbn [st_members]. unfold slab_inv, Mem.zlen, max_members in *. change (Z.shiftl 16 22) with 67108864.
+    change (2 ^ Z.of_nat 22) with 4194304. lia.
+  - vm_compute. reflexivity.
+Qed.
+
+(* such a state exists (not computed: 134217712 list cells) *)
+Remark slab_limit_state_exists : exists ms : list smember, Mem.zlen ms = max_members.
+Proof.
+  exists (repeat {| sm_tag := 1; sm_wt := 0; sm_field := Some 0%nat; sm_len := 1; sm_pref := 0; sm_data := [1] |}
+                 (Z.to_nat max_members)).
+  unfold Mem.zlen. rewrite repeat_length. unfold max_members. lia.
+Qed.
 
 (* non-vacuity, on Examples.ex_env: required int32; a sub-message sent twice (merged: merge_messages / h_merge run);
    two members of one oneof (the first is cleared); a string; a repeated string; a packed array; an unknown field.
@@ -837,6 +886,6 @@ Proof.
   intros s. apply h_unpack_top_simulates.
   - exact ex_env_ok.
   - unfold LeafSafe.bytes, ex_sim_input. repeat constructor; lia.
-  - vm_compute. discriminate.
+  - vm_compute. reflexivity.
   - vm_compute. lia.
 Qed.
